@@ -70,6 +70,10 @@ CLAIMED = {
   "layer-coherence check of the storage read APIs; amount/operand pairing on AddMiner/AddStake/GetRefundStake and its three callers; Sha256-nesting-depth agreement of key derivations across writer, reader, iterator and remover; mutation-cone check of every BeforeExecute",
   "Agreement rules decided structurally: lookup by id, by account and by iteration must sit on the same storage layer; stake debited == stake recorded, after uniqueness in both registries; refunded == subtracted, removal only below the type's minimum, callers schedule the returned amount; all four functions derive stake/account/status keys at depth 1/2/3; BeforeExecute mutates only through ProcessFee. The sums themselves are not decided.",
   "Trusted: go/ssa; miner records live only under the two registry addresses. Recorded defects F19 (DataIterator ignores pending writes) and F21 (UNSTAKE schedules the requested, not the subtracted amount — confirmed with a demo) are printed as KNOWN-FINDING."),
+ "C18": ("3/C18",
+  "abstract interpretation of the parser over an error-bound domain: constants (prec, rounding mode, base) and the ParseFloat→Mul→Int pipeline extracted from SSA/go/types, closed-form inequalities discharged with math/big; float-freeness and composition checks on the formatters and balance accessors; value-origin check on the wrapped-transaction value path",
+  "Proof obligations O0–O6, extracted from the current source on every run and all discharged: the parser is exact for every decimal string with <=18 fractional and <=78 integer digits (prec 512 >= 322, both roundings away from zero, accumulated excess < 1 so truncation returns the exact integer), the formatter is float-free string arithmetic with exactly 18 fractional digits, the ERC20/Rocket rescalers are compositions of the two and every token-contract balance access goes through them, and a wrapped Ethereum transaction's value travels BigIntToStr → StrToBigInt unmodified. Strings with more than 18 fractional digits and ParseFloat's non-decimal syntaxes are outside the claim.",
+  "Trusted base: math/big rounding semantics as documented, go/types constant evaluation, go/ssa lowering, and the error-propagation lemma written out in the evidence."),
 }
 
 NOT_YET = {}
